@@ -76,7 +76,7 @@ class Ref:
 
 class ArrV:
     """immutable snapshot of an ndarray: shape = tuple of int terms, at(*idx) -> element"""
-    __slots__ = ('shape', 'at', 'dtype', 'origin', 'cols')
+    __slots__ = ('shape', 'at', 'dtype', 'origin', 'cols', 'blocks')
 
     def __init__(self, shape, at, dtype='real', origin='fresh'):
         self.shape = tuple(shape)
